@@ -150,7 +150,15 @@ func (g *vfGov) refreshGhostVotes(i int, v *vfVotes) {
 	}
 }
 
-func VF_C15_step() {
+// one entry per pre-state shape so that the shapes run in parallel
+func VF_C15_step_s0() { vfStep(0) }
+func VF_C15_step_s1() { vfStep(1) }
+func VF_C15_step_s2() { vfStep(2) }
+func VF_C15_step_s3() { vfStep(3) }
+func VF_C15_step_s4() { vfStep(4) }
+func VF_C15_step_s5() { vfStep(5) }
+
+func vfStep(shape int) {
 	nc := vf.Param("cands", 2)
 	g := vfNewGov()
 	v := &vfVotes{}
@@ -165,7 +173,7 @@ func VF_C15_step() {
 	// ---- arbitrary pre-state satisfying I
 	// shapes: A in {no record, stake only, stake + vote}, B in {no record, stake + vote}; vote masks by choice
 	shapes := [][2]int{{0, 0}, {1, 0}, {2, 0}, {0, 2}, {1, 2}, {2, 2}}
-	sh := shapes[vf.Choice("shape", len(shapes))]
+	sh := shapes[shape]
 	total := new(big.Int)
 	for i := range g.addr {
 		v.mask = append(v.mask, -1)
@@ -203,7 +211,7 @@ func VF_C15_step() {
 				listed = true
 			}
 		}
-		if !listed && vf.Choice("listedZero", 2) == 1 {
+		if !listed && vf.Param("listedZero", 0) == 1 && vf.Choice("listedZero", 2) == 1 {
 			listed = true
 		}
 		if listed {
